@@ -5,7 +5,7 @@
 
 namespace c05 {
 
-enum St : uint8_t { S_SPAWN, S_PAUSE, S_RESOLVE_DISCARD, S_RESOLVE_AWAIT, S_RESOLVE_KEEP, S_AWAIT, S_LOCK, S_UNLOCK_DISCARD, S_UNLOCK_AWAIT, S_PUSH, S_POP, S_START_NESTED, S_COUNT };
+enum St : uint8_t { S_SPAWN, S_PAUSE, S_RESOLVE_DISCARD, S_RESOLVE_AWAIT, S_RESOLVE_KEEP, S_AWAIT, S_LOCK, S_UNLOCK_DISCARD, S_UNLOCK_AWAIT, S_PUSH, S_POP, S_START_NESTED, S_NESTED_CALL, S_COUNT };
 struct Step { uint8_t kind, arg; };
 constexpr int NF = 4, MAXC = 8;
 struct Prog { std::vector<std::vector<Step>> co; std::vector<Step> main_ops; };
@@ -29,7 +29,8 @@ inline Prog decode(hz::Reader &r) {
     return p;
 }
 static const char *sn[] = {"spawn+detach", "pause", "resolve(discard)", "co_await resolve", "resolve(kept, released later)", "await future", "lock", "unlock(discard)", "co_await unlock", "push", "pop",
-                           "start() a child that runs nested and finishes without suspending"};
+                           "start() a child that runs nested and finishes without suspending",
+                           "coro_queue::install_queue_and_call (explicit nested activation: flushes the queue before it returns)"};
 inline std::string describe(const Prog &p) {
     hz::Desc d; d << (unsigned)p.co.size() << " coroutines;";
     for (size_t i = 0; i < p.co.size(); i++) { d << " C" << (unsigned)i << ":"; for (auto &s : p.co[i]) { d << " " << sn[s.kind]; if (s.kind >= S_RESOLVE_DISCARD && s.kind <= S_AWAIT) d << "#" << (unsigned)s.arg; } d << ";"; }
@@ -46,6 +47,7 @@ struct Model {
     // ordinary code releasing a suspend point resumes its coroutines DIRECTLY, one after another (they are
     // not queued): the loop continues whenever control returns to it, and only then is the queue flushed
     std::vector<int> loop;
+    std::vector<int> nest;                     // coroutines waiting inside an explicit nested activation (install_queue_and_call)
     enum Yield { RETURN_TO_RESUMER, TRANSFER_QUEUE, TRANSFER_DIRECT } yield = RETURN_TO_RESUMER;
     bool fut_resolved[NF] = {}; std::vector<int> fut_waiters[NF];
     int mx_owner = -1; std::deque<int> mx_waiters;
@@ -56,7 +58,7 @@ struct Model {
     void add_batch(std::vector<int> b) { if (!b.empty()) { readied_by_discard += (unsigned)b.size(); ready.push_back(std::move(b)); size_t n = 0; for (auto &x : ready) n += x.size(); if (n > max_ready) max_ready = (unsigned)n; } }
     const std::vector<int> *candidates() {
         if (yield == TRANSFER_DIRECT && !direct.empty()) return &direct;
-        if (yield == RETURN_TO_RESUMER && !loop.empty()) return &loop;
+        if (yield == RETURN_TO_RESUMER && !loop.empty() && nest.empty()) return &loop;     // (a nested activation flushes the QUEUE; the outer direct-resume loop continues only after it returned)
         return ready.empty() ? nullptr : &ready.front();
     }
     bool allowed_next(int id) { auto c = candidates(); return c && std::find(c->begin(), c->end(), id) != c->end(); }
@@ -182,6 +184,18 @@ inline cocls::async<void> script(World *w, int id) {
                 cocls::future<void> f = nested_child(w, id, cid, s.arg).start();
                 HZ_CHECK(f.ready(), "a child that never suspends was not finished when start() returned");
                 w->on_run(id, "after the nested start() returned");
+            } break;
+            case S_NESTED_CALL: {
+                // documented: a nested activation may be installed while a queue is active; everything queued is
+                // resumed before the call returns (explicit nested call: not a pre-emption of the caller)
+                cocls::coro_queue::install_queue_and_call([&] {
+                    if (s.arg & 1) { m.add_batch(w->model_resolve(j)); w->prom[j](1); }
+                    m.nest.push_back(id); w->model_suspend(Model::RETURN_TO_RESUMER);
+                });
+                HZ_CHECK(!m.nest.empty() && m.nest.back() == id && m.running == -1 && m.ready.empty() && m.direct.empty(),
+                         "nested activation of C%d returned although ready coroutines were left un-run or somebody is still running (running C%d, front %s)", id, m.running, w->front_str().c_str());
+                m.nest.pop_back(); m.running = id; m.yield = Model::RETURN_TO_RESUMER;
+                HZ_CHECK(cocls::coro_queue::is_active(), "coroutine queue is not active after a nested activation returned although a coroutine is still running under it");
             } break;
             case S_POP: {
                 if (m.q_items > 0) m.q_items--; else { m.q_waiters.push_back(id); w->model_suspend(); }
